@@ -14,6 +14,8 @@ MUTANTS = {
         "d2_reverted": [("_cache.py", "        store.pop(record, None)\n", "")],
     },
     "C08": {
+        "d19_reverted": [("_core.py", "            while self._goodbye_tasks:\n                await asyncio.wait(self._goodbye_tasks)\n", "")],
+        "d20_reverted": [("_core.py", "        if registered is not None:\n            info = registered\n", "")],
         "d3_reverted": [("_core.py", "        self.out_delay_queue.async_remove_records(withdrawn)\n", "")],
         "d15_reverted": [("_core.py", "            if ttl is None and self.registry.async_get_info_name(info.key) is not info:", "            if False:")],
         "goodbye_twice": [("_core.py", "        for i in range(_REGISTER_BROADCASTS):\n            if i != 0:\n                await asyncio.sleep(millis_to_seconds(interval))",
@@ -61,15 +63,20 @@ MUTANTS = {
         "complete_only_when_new": [("_handlers/record_manager.py", "        if updates:\n            self.async_updates_complete(new)", "        if updates and new:\n            self.async_updates_complete(new)")],
     },
     "C10": {
+        "d34_reverted": [("_services/browser.py", "        self._next_scheduled_for_alias[(scheduled_query.name.lower(), scheduled_query.alias)] = scheduled_query", "        self._next_scheduled_for_alias[('', scheduled_query.alias)] = scheduled_query"),
+                         ("_services/browser.py", "        scheduled = self._next_scheduled_for_alias.pop((pointer.key, pointer.alias_key), None)", "        scheduled = self._next_scheduled_for_alias.pop(('', pointer.alias_key), None)"),
+                         ("_services/browser.py", "        current = self._next_scheduled_for_alias.get((pointer.key, pointer.alias_key))", "        current = self._next_scheduled_for_alias.get(('', pointer.alias_key))"),
+                         ("_services/browser.py", "            del self._next_scheduled_for_alias[(pointer.key, pointer.alias_key)]", "            del self._next_scheduled_for_alias[('', pointer.alias_key)]"),
+                         ("_services/browser.py", "            del self._next_scheduled_for_alias[(query.name.lower(), query.alias)]", "            del self._next_scheduled_for_alias[('', query.alias)]")],
         "refresh_at_90": [("const.py", "_EXPIRE_REFRESH_TIME_PERCENT = 75", "_EXPIRE_REFRESH_TIME_PERCENT = 90")],
         "rescue_step_half": [("_services/browser.py", "RESCUE_RECORD_RETRY_TTL_PERCENTAGE = 0.1", "RESCUE_RECORD_RETRY_TTL_PERCENTAGE = 0.5")],
-        "old_slot_never_cancelled": [("_services/browser.py", "            current.cancelled = True\n            del self._next_scheduled_for_alias[pointer.alias_key]", "            del self._next_scheduled_for_alias[pointer.alias_key]")],
+        "old_slot_never_cancelled": [("_services/browser.py", "            current.cancelled = True\n            del self._next_scheduled_for_alias[(pointer.key, pointer.alias_key)]", "            del self._next_scheduled_for_alias[(pointer.key, pointer.alias_key)]")],
         "startup_linear": [("_services/browser.py", "self._next_run = self._loop.call_later(self._startup_queries_sent**2, self._process_startup_queries)",
                             "self._next_run = self._loop.call_later(self._startup_queries_sent, self._process_startup_queries)")],
         "d4_rearm_reverted": [("_services/browser.py", "        if when < next_run.when():", "        if False and when < next_run.when():")],
         "d4_rescue_head_reverted": [("_services/browser.py", "        if schedule_rescue:\n", "        if False:\n")],
         "d8_reverted": [("_services/browser.py", "                current.ttl = int(pointer.ttl) if isinstance(pointer.ttl, float) else pointer.ttl\n                current.expire_time_millis = pointer.get_expiration_time(100)\n", "")],
-        "d9_reverted": [("_services/browser.py", "self._next_scheduled_for_alias.get(pointer.alias_key)", "self._next_scheduled_for_alias.get(pointer.alias)")],
+        "d9_reverted": [("_services/browser.py", "self._next_scheduled_for_alias.get((pointer.key, pointer.alias_key))", "self._next_scheduled_for_alias.get((pointer.key, pointer.alias))")],
         "first_query_qm": [("_services/browser.py", "question_type = QU_QUESTION if self._question_type is None and first_request else self._question_type",
                             "question_type = self._question_type")],
         "min_spacing_ignored": [("_services/browser.py", "        if next_scheduled is not None and next_scheduled.when_millis > next_time_millis:",
@@ -78,6 +85,10 @@ MUTANTS = {
         "goodbye_keeps_schedule": [("_services/browser.py", "                        self.query_scheduler.cancel_ptr_refresh(pointer)\n", "")],
     },
     "C03": {
+        "d22_reverted": [("_core.py", "        info.set_server_if_missing()\n        replaced = self.registry.async_get_info_name(info.key)", "        replaced = self.registry.async_get_info_name(info.key)")],
+        "d29_reverted": [("_handlers/query_handler.py", "        if type_ in (_TYPE_PTR, _TYPE_ANY) and question_lower_name == _SERVICE_TYPE_ENUMERATION_NAME:", "        if type_ == _TYPE_PTR and question_lower_name == _SERVICE_TYPE_ENUMERATION_NAME:")],
+        "d30_additionals_not_purged": [("_handlers/multicast_outgoing_queue.py", "                additionals.difference_update(withdrawn)", "                pass")],
+        "d30_enumeration_not_purged": [("_core.py", "            withdrawn.append(self._service_type_enumeration_pointer(info.type))", "            pass")],
         "question_name_not_lowered": [("_handlers/query_handler.py", "        question_lower_name = name.lower()", "        question_lower_name = name")],
         "suppress_ge": [("_dns.py", "        return other.ttl > (record.ttl / 2)", "        return other.ttl >= (record.ttl / 2)")],
         "memo_not_cleared_on_add": [("_services/registry.py", "        info.async_clear_cache()\n", "")],
@@ -108,6 +119,8 @@ MUTANTS = {
     # [listed under C10 instead], AsyncZeroconf.async_close without removing the service listeners, and
     # _process_ready_types without its `done` test.
     "C17": {
+        "d18_reverted": [("_core.py", "            goodbye.add_done_callback(self._goodbye_tasks.discard)\n            await goodbye\n", "            goodbye.add_done_callback(self._goodbye_tasks.discard)\n            await goodbye\n            return\n")],
+        "d26_close_goodbye_untracked": [("_core.py", "            self._goodbye_tasks.add(goodbye)\n            goodbye.add_done_callback(self._goodbye_tasks.discard)\n            await goodbye\n", "            await goodbye\n")],
         "send_ignores_done": [("_core.py", "        if self.done:\n            return\n\n        # If no transport is specified", "        # If no transport is specified")],
         "cleanup_timer_not_cancelled": [("_engine.py", "        self._cleanup_timer.cancel()", "        pass")],
         "no_goodbye_on_close": [("asyncio.py", "        await self.async_unregister_all_services()\n        await self.zeroconf._async_close()", "        await self.zeroconf._async_close()")],
@@ -116,6 +129,8 @@ MUTANTS = {
         "sync_close_skips_goodbye": [("_core.py", "            else:\n                self.unregister_all_services()", "            else:\n                pass")],
     },
     "C09": {
+        "d23_reverted": [("_core.py", "        await self.async_wait_for_start()\n        await self.async_check_service(info, allow_name_change, cooperating_responders, strict)", "        info.set_server_if_missing()\n        await self.async_wait_for_start()\n        await self.async_check_service(info, allow_name_change, cooperating_responders, strict)")],
+        "d24_reverted": [("_core.py", "            next_time = now + _CHECK_TIME", "            next_time += _CHECK_TIME")],
         "check_time_doubled": [("const.py", "_CHECK_TIME = 175", "_CHECK_TIME = 350")],
         "two_probes": [("_core.py", "        while i < _REGISTER_BROADCASTS:\n            # check for a name conflict", "        while i < 2:\n            # check for a name conflict")],
         "conflict_check_only_first": [("_core.py", "            while self.cache.current_entry_with_name_and_alias(info.type, info.name):", "            while i == 0 and self.cache.current_entry_with_name_and_alias(info.type, info.name):")],
@@ -128,6 +143,8 @@ MUTANTS = {
         "ptr_flush_bit": [("_services/info.py", "            self.type,\n            _TYPE_PTR,\n            _CLASS_IN,", "            self.type,\n            _TYPE_PTR,\n            _CLASS_IN_UNIQUE,")],
     },
     "C11": {
+        "d21_reverted": [("_listener.py", "            and (addrs[1] == _MDNS_PORT or addrs[:2] == self.last_message.source)\n", "")],
+        "d31_reverted": [("_listener.py", "        if msg is not None and port != _MDNS_PORT:", "        if False:")],
         "recent_is_half": [("_dns.py", "_RECENT_TIME_MS = 250", "_RECENT_TIME_MS = 500")],
         "unicast_via_first_sender": [("_handlers/query_handler.py", "            self.zc.async_send(out, addr, port, v6_flow_scope, transport)", "            self.zc.async_send(out, addr, port, v6_flow_scope, self.zc.engine.senders[0])")],
         "unicast_built_as_multicast": [("_handlers/answers.py", "    out = DNSOutgoing(_FLAGS_QR_RESPONSE_AA, False, id_)", "    out = DNSOutgoing(_FLAGS_QR_RESPONSE_AA, True, id_)")],
@@ -141,6 +158,7 @@ MUTANTS = {
         # multicast id forced to 0 in packets(): equivalent here, every multicast DNSOutgoing the stack builds has id 0 anyway
     },
     "C12": {
+        "d25_reverted": [("_handlers/query_handler.py", "        query_res = _QueryResponse(self.cache, questions, is_probe, msg.now)", "        query_res = _QueryResponse(self.cache, msgs[0]._questions, is_probe, msg.now)")],
         "aggregation_600": [("_core.py", "_AGGREGATION_DELAY = 500  # ms", "_AGGREGATION_DELAY = 700  # ms")],
         "protected_extra_delay_900": [("_core.py", "self.out_delay_queue = MulticastOutgoingQueue(self, _ONE_SECOND, _PROTECTED_AGGREGATION_DELAY)", "self.out_delay_queue = MulticastOutgoingQueue(self, 900, _PROTECTED_AGGREGATION_DELAY)")],
         "last_second_le": [("_handlers/query_handler.py", "self._now - maybe_entry.created < _ONE_SECOND)", "self._now - maybe_entry.created < 500)")],
@@ -165,22 +183,24 @@ MUTANTS = {
         "lookup_asks_srv_despite_answer": [("_services/info.py", "        if skip_if_known_answers and known_answers:\n            return\n", "")],
         "browser_known_answers_dropped": [("_services/browser.py", "        for answer in answers:\n            self.out.add_answer_at_time(answer, self.now_millis)", "        for answer in list(answers)[:0]:\n            self.out.add_answer_at_time(answer, self.now_millis)")],
         "tc_flag_never": [("_protocol/outgoing.py", "            if has_more_to_add and self.is_query():", "            if False:")],
-        "d12_reverted": [("_handlers/query_handler.py", "                        if record.key == question.key and question.type in (record.type, _TYPE_ANY)", "                        if True")],
+        "d12_reverted": [("_handlers/query_handler.py", "                        for record in known_answers_by_name.get(question.key, ())\n                        if question.type in (record.type, _TYPE_ANY)", "                        for record in known_answers.lookup_set()\n                        if True")],
         "history_subset_test_inverted": [("_history.py", "        if previous_known_answers - known_answers:", "        if known_answers - previous_known_answers:")],
     },
     "C18": {
+        "d32_reverted": [("_services/info.py", "            if type(record_update.new) is DNSService:\n                updated |= self._process_record_threadsafe(zc, record_update.new, now)\n        for record_update in records:\n            if type(record_update.new) is not DNSService:\n                updated", "            if False:\n                updated |= self._process_record_threadsafe(zc, record_update.new, now)\n        for record_update in records:\n            if True:\n                updated")],
         "expired_records_used": [("_services/info.py", "        if record.is_expired(now):\n            return False\n\n        record_key = record.key", "        record_key = record.key")],
         "deadline_off_by_one_pass": [("_services/info.py", "                if last <= now:\n                    return False", "                if last + 300 <= now:\n                    return False")],
         "complete_without_address": [("_services/info.py", "        return bool(self.text is not None and (self._ipv4_addresses or self._ipv6_addresses))", "        return bool(self.text is not None and (self.port is not None or self._ipv4_addresses or self._ipv6_addresses))")],
         "first_request_inverted": [("_services/info.py", "                    this_question_type = question_type or QU_QUESTION if first_request else QM_QUESTION", "                    this_question_type = question_type or QM_QUESTION if first_request else QU_QUESTION")],
         "wait_ignores_deadline": [("_services/info.py", "                await self.async_wait(min(next_, last) - now, zc.loop)", "                await self.async_wait(next_ - now, zc.loop)")],
-        "d13_reverted": [("_services/info.py", "        for cached_srv_record in cache.get_all_by_details(self._name, _TYPE_SRV, _CLASS_IN):", "        for cached_srv_record in cache.get_all_by_details(self._name, _TYPE_SRV, _CLASS_IN)[-1:]:")],
+        "d13_reverted": [("_services/info.py", "            cache.get_all_by_details(self._name, _TYPE_SRV, _CLASS_IN), key=_created_of\n        ):", "            cache.get_all_by_details(self._name, _TYPE_SRV, _CLASS_IN), key=_created_of\n        )[-1:]:")],
         "expired_addresses_loaded": [("_services/info.py", "            if record.is_expired(now):\n                continue\n            ip_addr = get_ip_address_object_from_record(record)", "            ip_addr = get_ip_address_object_from_record(record)")],
         "addresses_not_reloaded_on_srv_change": [("_services/info.py", "            if old_server_key != self.server_key:\n                self._set_ipv4_addresses_from_cache(zc, now)\n                self._set_ipv6_addresses_from_cache(zc, now)", "            if False:\n                pass")],
         # not listed: dropping the early `return True` after _load_from_cache is equivalent (the query loop is
         # guarded by `while not self._is_complete`)
     },
     "C07": {
+        "d28_reverted": [("_services/info.py", "    return (record.created, record.ttl)", "    return (0.0, 0.0)")],
         "two_announcements": [("_core.py", "_REGISTER_BROADCASTS = 3", "_REGISTER_BROADCASTS = 1")],
         # not listed (responder_drops_ptr_additionals): equivalent under the single-loss fault model: PTR answers without SRV/TXT/address additionals only cost extra queries: lookups from add_service still resolve within 3 s
         # not listed (duplicate_question_interval_5s): equivalent under the single-loss fault model: a 20 s duplicate-question window withholds later start-up queries, which needs two losses to matter (the first QU query is never suppressed)
